@@ -1,0 +1,71 @@
+// +build verif
+
+package config
+
+import (
+	"context"
+
+	"github.com/samaritan-proxy/samaritan/pb/config/bootstrap"
+	"github.com/samaritan-proxy/samaritan/pb/config/service"
+)
+
+// Entry points for verification builds only.
+
+// VerifStream is the stream seen by a service discovery client.
+type VerifStream interface {
+	Send(subscribed, unsubscribed []string) error
+	Recv() error
+}
+
+// VerifDiscoveryClient wraps the client shared by the service config and
+// service endpoint discovery.
+type VerifDiscoveryClient struct {
+	c *svcDiscoveryClient
+}
+
+func VerifNewSvcDiscoveryClient(scope string, maker func(ctx context.Context) (VerifStream, error)) *VerifDiscoveryClient {
+	c := newSvcDiscoveryClient(scope, func(ctx context.Context) (svcDiscoveryStream, error) {
+		s, err := maker(ctx)
+		if err != nil {
+			return nil, err
+		}
+		return s, nil
+	})
+	return &VerifDiscoveryClient{c: c}
+}
+
+func (v *VerifDiscoveryClient) Subscribe(name string)   { v.c.Subscribe(name) }
+func (v *VerifDiscoveryClient) Unsubscribe(name string) { v.c.Unsubscribe(name) }
+func (v *VerifDiscoveryClient) Run(ctx context.Context) { v.c.Run(ctx) }
+
+// VerifSource is a dynamic source driven by the caller: it captures the three
+// update hooks of the store.
+type VerifSource struct {
+	dependHook dependencyHook
+	svcCfgHook svcConfigHook
+	svcEtHook  svcEndpointHook
+	quit       chan struct{}
+}
+
+func (d *VerifSource) SetDependencyHook(hook dependencyHook)   { d.dependHook = hook }
+func (d *VerifSource) SetSvcConfigHook(hook svcConfigHook)     { d.svcCfgHook = hook }
+func (d *VerifSource) SetSvcEndpointHook(hook svcEndpointHook) { d.svcEtHook = hook }
+func (d *VerifSource) Serve()                                  { <-d.quit }
+func (d *VerifSource) Stop()                                   { close(d.quit) }
+
+func (d *VerifSource) Dependency(added, removed []*service.Service) { d.dependHook(added, removed) }
+func (d *VerifSource) SvcConfig(name string, cfg *service.Config)   { d.svcCfgHook(name, cfg) }
+func (d *VerifSource) SvcEndpoint(name string, added, removed []*service.Endpoint) {
+	d.svcEtHook(name, added, removed)
+}
+
+// VerifNewWithSource creates the store with a caller driven dynamic source.
+// NOTE: it swaps the package level factory, do not call it concurrently.
+func VerifNewWithSource(b *bootstrap.Bootstrap) (*Config, *VerifSource, error) {
+	src := &VerifSource{quit: make(chan struct{})}
+	old := dynamicSourceFactory
+	dynamicSourceFactory = func(*bootstrap.Bootstrap) (DynamicSource, error) { return src, nil }
+	defer func() { dynamicSourceFactory = old }()
+	c, err := New(b)
+	return c, src, err
+}
